@@ -2986,6 +2986,9 @@ webdav_copymove_file (const plugin_config * const pconf,
             if (!overwrite)
                 return 412; /* Precondition Failed */
             if (0 == webdav_linktmp_rename(pconf, &src->path, &dst->path)) {
+                /* unconditional stat cache deletion
+                 * (not worth extra syscall/race to detect overwritten or not)*/
+                stat_cache_delete_entry(BUF_PTR_LEN(&dst->path));
                 webdav_prop_copy_uri(pconf, &src->rel_path, &dst->rel_path);
                 return 0;
             }
